@@ -1,8 +1,9 @@
 // racer — failing-input search for C07: stresses one exported method of an in-memory structure
 // against concurrent updates on a shared instance under the Go race detector.
 // Usage: racer Type.Method   (built with -race; GORACE=halt_on_error=1 makes a race exit 66)
-//        racer -atomic Type.Method   looks for an outcome no sequential ordering of the calls can
-//        produce (lost or doubled update) and exits 67 with a description when it finds one.
+//
+//	racer -atomic Type.Method   looks for an outcome no sequential ordering of the calls can
+//	produce (lost or doubled update) and exits 67 with a description when it finds one.
 package main
 
 import (
@@ -10,6 +11,7 @@ import (
 	"fmt"
 	"os"
 	"sync"
+	"time"
 
 	gx "github.com/kwertop/gostatix"
 )
@@ -20,6 +22,12 @@ func main() {
 		os.Exit(2)
 	}
 	target := os.Args[1]
+	// calls that block each other for good (a lock-order inversion, a lock never released) make no
+	// progress: every probe finishes within seconds, so after 150 s the probe reports a hang
+	time.AfterFunc(150*time.Second, func() {
+		fmt.Printf("HANG: the concurrent calls of probe %v did not return within 150 s (callers blocked on each other)\n", os.Args[1:])
+		os.Exit(68)
+	})
 	if target == "-atomic" && len(os.Args) > 2 {
 		atomic(os.Args[2])
 		return
@@ -236,6 +244,15 @@ func atomic(target string) {
 			})
 			if c := s.Count([]byte("x")); c != G*200 {
 				fail("CMS: %d goroutines x 200 updates of x by 1: Count(x)=%d, sequentially %d (trial %d)", G, c, G*200, trial)
+			}
+			ref, _ := gx.NewCountMinSketch(3, 64)
+			for i := 0; i < G*200; i++ {
+				ref.Update([]byte("x"), 1)
+			}
+			a, _ := s.Export()
+			b, _ := ref.Export()
+			if !bytes.Equal(a, b) {
+				fail("CMS: %d goroutines x 200 updates of x by 1: the exported document differs from the one after the same updates one after another: %s vs %s (trial %d)", G, a, b, trial)
 			}
 		}
 	case "HyperLogLog.Update":
